@@ -589,12 +589,26 @@ class Integer(Type):
                                       'INTEGER',
                                       Tag.INTEGER)
         self.has_extension_marker = False
+        self.minimum = 'MIN'
+        self.maximum = 'MAX'
         self.length = None
         self.fmt = None
         self.signed = True
 
     def set_restricted_to_range(self, minimum, maximum, has_extension_marker):
         self.has_extension_marker = has_extension_marker
+
+        # In a constraint applied to a reference to a constrained
+        # type, MIN and MAX are the smallest and largest value of
+        # that type (without its extension additions).
+        if minimum == 'MIN':
+            minimum = self.minimum
+
+        if maximum == 'MAX':
+            maximum = self.maximum
+
+        self.minimum = minimum
+        self.maximum = maximum
 
         # An extensible constraint is not OER-visible (X.696 8.2.3), so
         # it selects neither a fixed width nor the unsigned form.
